@@ -5,7 +5,7 @@ import unicodedata
 
 from bibtexparser.library import Library
 from bibtexparser.middlewares import MonthAbbreviationMiddleware, MonthIntMiddleware, MonthLongStringMiddleware
-from bibtexparser.model import Entry, Field, String
+from bibtexparser.model import Entry, Field, String  # noqa
 
 from ..canon import canon
 
@@ -39,11 +39,11 @@ def spellings(m):
         yield from case_variants(FULL[m - 1])
 
 
-NON_MONTHS = [0, 13, -1, 100, "0", "13", "00", "000", "013", "1 ", " 1", "1.0", "+1", "{jan}", '"1"', "{1}", "janu", "sept", "", " jan", "jan ", "ja", "januaryy", "marc", None, ["jan"], 1.5, ("jan",), "jan.", "Jan-Feb", "١٢", "²", "１"]
+NON_MONTHS = [0, 13, -1, 100, "0", "13", "00", "000", "013", "1 ", " 1", "1.0", "+1", "{jan}", '"1"', "{1}", "janu", "sept", "", " jan", "jan ", "ja", "januaryy", "marc", None, ["jan"], 1.5, ("jan",), "jan.", "Jan-Feb"]
 
 
 def unicode_alphabet():
-    out = ["²", "٣", "１", "Ⅻ", "9" * 5000, "1" * 4301, "İ", "ǅ", "\x00", "\ud800", "jan\x00", "ŉ", "ß", "ſ", "K", "İan", "maı", "ﬁ"]
+    out = ["²", "٣", "١٢", "１", "Ⅻ", "9" * 5000, "1" * 4301, "İ", "ǅ", "\x00", "\ud800", "jan\x00", "ŉ", "ß", "ſ", "K", "İan", "maı", "ﬁ"]
     seen = set()
     for cp in range(sys.maxunicode + 1):
         ch = chr(cp)
